@@ -269,7 +269,7 @@ def rule_open_check(ctx):
     ti = ctx.prog.func("trellis.Trellis.initialize")
     for tr, st in flow.paths_of(ti):
         tests = [(e[1], e[2]) for e in tr if e[0] == "test"]
-        if ("is_fresh", False) in tests:
+        if ("is_fresh", False) in tests or ("root is None", False) in tests or ("root is not None", True) in tests:
             names = [e[1] for e in tr if e[0] == "call"]
             ok = "self._rebuild_temp_tables" in names and "self._check_consistency" in names
             k = [i for i, e in enumerate(tr) if e[0] == "call" and e[1] == "self._check_consistency"]
@@ -284,7 +284,32 @@ def rule_startup_wiring(ctx):
     shared.check_startup_rescans_wired(ctx, "the restart looks at the file system but the result goes nowhere: a file, glob match or variable that changed while StepUp was down (or while it was killed) is not acted upon and the resumed build skips steps that an uninterrupted build runs")
 
 
+def rule_open_without_root(ctx):
+    """R-C05-10: a database that has its schema but no root node is completed at the next start, not rejected.
+
+    The schema is applied and committed before the transaction that creates the root.  A kill in between leaves
+    tables without a root; a start that takes `find(Root, '')` for granted then dies on every attempt.
+    """
+    fi = ctx.prog.func("trellis.Trellis.initialize")
+    n = 0
+    for tr, st in flow.paths_of(fi):
+        if st not in ("return", "fall"):
+            continue
+        n += 1
+        calls = [e[1] for e in tr if e[0] == "call"]
+        tests = [(e[1], e[2]) for e in tr if e[0] == "test"]
+        creates = "self.create" in calls
+        found_checked = any(re.search(r"\bis None$", t) and v is False for t, v in tests) or any(re.search(r"\bis not None$", t) and v is True for t, v in tests)
+        if not (creates or found_checked):
+            ctx.bad(fi.fq, "the root is created or was found", f"a path (tests {tests}) uses the result of the root lookup without having created or found a root: after a kill between the schema and the first transaction every later start fails with AttributeError in _check_consistency", where=ctx.where_of(fi))
+            return
+    ctx.check(n >= 2, fi.fq, "the root is created or was found", f"{n} paths", f"{n} paths")
+    order = [callee_name(c) for c in calls_in(fi.node) if callee_name(c) in ("apply_schema", "create")]
+    ctx.check(order[:1] == ["apply_schema"], fi.fq, "the schema is applied before the root is created (the window this rule is about)", f"order {order}", "apply_schema first")
+
+
 RULES = [
+    Rule("R-C05-10", "a schema without root is completed at the next start", rule_open_without_root, min_instances=2),
     Rule("R-C05-8", "startup rescans are wired to their reactions", rule_startup_wiring, min_instances=6),
     Rule("R-C05-1", "all SQL runs inside one transaction region; none nests", rule_transactions, min_instances=30),
     Rule("R-C05-2", "completion units are one transaction", rule_atomic_units, min_instances=4),
@@ -296,6 +321,7 @@ RULES = [
 ]
 
 MUTANTS = [
+    Mutant("root-lookup-taken-for-granted", "trellis.py", in_function("Trellis.initialize", lambda t: t.replace('            root = None if is_fresh else self.find(Root, "")\n            if root is None:\n', '            root = None if is_fresh else self.find(Root, "")\n            if is_fresh:\n', 1) if "if root is None:" in t else None), ("R-C05-10",)),
     Mutant("checking-reset-only-with-failed-steps", "startup.py", in_function("reset_interrupted_steps", lambda t: t.replace('        db.execute(\n            "UPDATE step SET state = ? WHERE state = ?",\n            (StepState.PENDING.value, StepState.CHECKING.value),\n        )\n', "", 1).replace("        async with db:\n            for step in failed_steps:\n", '        async with db:\n            db.execute(\n                "UPDATE step SET state = ? WHERE state = ?",\n                (StepState.PENDING.value, StepState.CHECKING.value),\n            )\n            for step in failed_steps:\n', 1) if "(StepState.PENDING.value, StepState.CHECKING.value)" in t and "            for step in failed_steps:\n" in t else None), ("R-C05-3",)),
     Mutant("env-value-stored-in-own-transaction", "startup.py", in_function("rescan_env_vars", lambda t: t.replace("            for node_i, name in changed_uses:\n                steps_to_rerun[node_i].refresh_env_dep(name)\n", "", 1).replace("        async with workflow.db:\n            for step in steps_to_rerun.values():\n", "        async with workflow.db:\n            for node_i, name in changed_uses:\n                steps_to_rerun[node_i].refresh_env_dep(name)\n        async with workflow.db:\n            for step in steps_to_rerun.values():\n", 1) if "steps_to_rerun[node_i].refresh_env_dep(name)" in t else None), ("R-C05-8",)),
     Mutant("rescan-files-goes-nowhere", "startup.py", in_function("rescan_files", replace_once("        path_hash_causes.append((path, old_file_hash, cause))\n", "        pass\n")), ("R-C05-8",)),
